@@ -113,11 +113,12 @@ impl<'a> SpannedDiagnosticFormatter<'a> {
             let (line_start_byte, _) = self.nlc().span_line_bytes(span);
             let span_offset_from_start = span.start() - line_start_byte;
 
-            // An underline bounded by the current line.
+            // An underline bounded by the current line. `lines()` strips the line's "\n" or "\r\n",
+            // so a span starting within that terminator lies beyond `source_line.len()`.
             let underline_span = Span::new(
                 span.start(),
                 span.end()
-                    .min(span.start() + (source_line.len() - span_offset_from_start)),
+                    .min(span.start() + source_line.len().saturating_sub(span_offset_from_start)),
             );
             let (line_num, _) = self
                 .nlc()
